@@ -271,6 +271,24 @@ CHECKS = {
         note=('Trusted: Coq kernel + vm_compute; make_residue_graph; the reference block (after mutation / modification '
               'patching) is taken from the implementation; maximality of the match is certified per input, not for all inputs.'),
         technique='Coq proof (loop invariant for the embedding, stuck-state argument for the self-modifying loop, counting) + C06 verified oracle + in-Coq correspondence'),
+    'C14': dict(
+        category='proof',
+        text=('Coq theorems about a model of canonicalize_modifications.py: the recursive exact-cover search returns only '
+              'covers (placements of the offered modifications in the offered order, each inside the atoms still available '
+              'and covering something new) and gives up - removal plus warning - only when no such cover exists '
+              '(soundness and completeness against an inductive definition of covers, termination by the shrinking set); '
+              'in a cover every atom to be covered lies in a chosen placement and every unexplained atom in exactly one; '
+              'the placements offered for a modification are exactly its induced sub-graph isomorphisms with anchors matched '
+              'by name and added atoms by element (C06 reference enumeration). Tie: real fix_ptm on generated molecules and '
+              'modification sets (sub-patterns of one another, anchor-only, residue-spanning, replace / remove, nameless '
+              'elements) with find_ptm_atoms / identify_ptms observed; grouping and identify outcome compared with the model; '
+              'the statement (induced placement, covered exactly once, canonical names, residue labels, removal with '
+              'warning, nothing silently kept) evaluated in Coq on the implementation\'s own placements and final molecule.'),
+        design_ref='DESIGN.md section 5, C14',
+        note=('Trusted: Coq kernel + vm_compute; networkx GraphMatcher replaced by C06\'s enumeration in the model; harness wrappers '
+              'observing find_ptm_atoms / identify_ptms; the branch for atoms already labelled by RepairGraph is not modelled; the '
+              'flood-fill grouping is validated, not proved.'),
+        technique='Coq proof (soundness and completeness of a backtracking exact cover against an inductive specification) + C06 verified oracle + in-Coq correspondence'),
 }
 NOT_APPLICABLE = {}
 PENDING_REASON = 'not yet claimed: model and proofs for this property are still being built (see DESIGN.md staging); no check is registered so nothing is asserted'
